@@ -1,9 +1,327 @@
 import WzVerif.Driver.Proto
+import WzVerif.Model.Wire
+import WzVerif.Model.Containers
 namespace Wz.Driver.C08
-open Wz Wz.Proto
+open Wz Wz.Proto Wz.Wire Wz.Hdr
 
-/-- stub: no model commands yet -/
+/-! ### Headers -/
+
+def pSlice (a b : String) : Option Slice := do
+  let a ← pOptInt a
+  let b ← pOptInt b
+  pure ⟨a, b⟩
+
+def pHdrOp (s : String) : Option Hdr.Op :=
+  match s.splitOn "," with
+  | ["add", k, v] => do pure (.add (← pAtom k) (← pAtom v))
+  | ["set", k, v] => do pure (.set (← pAtom k) (← pAtom v))
+  | ["setlist", k, vs] => do pure (.setlist (← pAtom k) (← pAtoms vs))
+  | ["setdefault", k, v] => do pure (.setdefault (← pAtom k) (← pAtom v))
+  | ["setlistdefault", k, vs] => do pure (.setlistdefault (← pAtom k) (← pAtoms vs))
+  | ["extend", tag, body, kw] => do pure (.extend (← pArg tag body) (← pMap kw))
+  | ["update", tag, body, kw] => do pure (.update (← pArg tag body) (← pMap kw))
+  | ["setitem", k, v] => do pure (.setitemKey (← pAtom k) (← pAtom v))
+  | ["setidx", i, k, v] => do pure (.setitemIdx (← pInt i) (← pAtom k, ← pAtom v))
+  | ["setslice", a, b, ps] => do pure (.setitemSlice (← pSlice a b) (← pPairs ps))
+  | ["delitem", k] => do pure (.delitemKey (← pAtom k))
+  | ["delidx", i] => do pure (.delitemIdx (← pInt i))
+  | ["delslice", a, b] => do pure (.delitemSlice (← pSlice a b))
+  | ["remove", k] => do pure (.remove (← pAtom k))
+  | ["pop"] => some .popLast
+  | ["popkey", k, d] => do pure (.popKey (← pAtom k) (← pOptAtom d))
+  | ["popidx", i] => do pure (.popIdx (← pInt i))
+  | ["popitem"] => some .popitem
+  | ["clear"] => some .clear
+  | ["ior", tag, body] => do
+    match ← pArg tag body with
+    | some a => pure (.ior a)
+    | none => none
+  | _ => none
+
+def oHdrRet : Hdr.Ret → String
+  | .none => "~"
+  | .str s => oS s
+  | .pair p => oPair p
+  | .strs l => oStrs l
+
+def hdrIdxProbes : List Int := [0, 1, -1]
+def hdrSliceProbes : List Slice := [⟨some 1, none⟩, ⟨none, some 1⟩, ⟨some (-1), none⟩, ⟨some 0, some (-1)⟩]
+
+def hdrDump (probes : List Str) (l : HList) : String :=
+  let perKey := probes.map fun k =>
+    "k" ++ oS k ++ "=" ++ oExcept oS (getKey l k) ++ "/" ++ oOpt oInt (getTyped pyInt l k) ++ "/" ++
+      oStrs (getlist l k) ++ "/" ++ oList oInt (getlistTyped pyInt l k) ++ "/" ++ oBool (contains l k)
+  let perIdx := hdrIdxProbes.map fun i =>
+    "i" ++ oInt i ++ "=" ++ (match pyIdx l.length i with
+      | some n => (match l[n]? with | some p => oPair p | none => oExc "IndexError")
+      | none => oExc "IndexError")
+  let perSlice := hdrSliceProbes.map fun s => "s=" ++ oPairs (getSlice l s)
+  "|".intercalate (["len=" ++ oNat l.length, "list=" ++ oPairs l, "lower=" ++ oPairs (items l true),
+    "keys=" ++ oStrs (keys l false), "values=" ++ oStrs (values l), "str=" ++ oS (toText l)]
+    ++ perKey ++ perIdx ++ perSlice)
+
+/-- `h | other` (not a mutator): answer the list of the new object -/
+def hdrOr (l : HList) (tag body : String) : Option String := do
+  match ← pArg tag body with
+  | some (.mapping m) =>
+    let r := update l (some (.mapping m)) []
+    pure (match r.2 with | .ok _ => oPairs r.1 | .error e => oExc e)
+  | _ => pure (oExc "TypeError")
+
+/-- run the ops; `all` = dump after every step -/
+def hdrRun (all : Bool) (probes : List Str) (l : HList) (ops : List String) : Option (List String) :=
+  match ops with
+  | [] => some []
+  | o :: t =>
+    match o.splitOn "," with
+    | ["or", tag, body] => do
+      let r ← hdrOr l tag body
+      let here := if all || t.isEmpty then r ++ "#" ++ hdrDump probes l else r
+      let rest ← hdrRun all probes l t
+      pure (here :: rest)
+    | _ => do
+      let op ← pHdrOp o
+      let r := Hdr.step l op
+      let here := oExcept oHdrRet r.2
+      let here := if all || t.isEmpty then here ++ "#" ++ hdrDump probes r.1 else here
+      let rest ← hdrRun all probes r.1 t
+      pure (here :: rest)
+
+def handleHdr (all probes tag body : String) (ops : List String) : Option String := do
+  let probes ← pAtoms probes
+  let arg ← pArg tag body
+  match construct arg with
+  | .error e => pure (oExc e)
+  | .ok l =>
+    let outs ← hdrRun (all == "1") probes l ops
+    pure (";".intercalate (("#" ++ (if all == "1" || ops.isEmpty then hdrDump probes l else "")) :: outs))
+
+/-! ### MultiDict -/
+
+abbrev MDS := MD.St Str Str
+
+def pMVal : Hdr.MVal → MD.MVal Str
+  | .one v => .one v
+  | .many vs => .many vs
+
+def pMDArg (tag body : String) : Option (Option (MD.Arg Str Str)) :=
+  if tag == "N" then some none
+  else if tag == "P" then (pPairs body).map (fun l => some (.pairs l))
+  else if tag == "D" then (pMap body).map (fun m => some (.mapping (m.map fun e => (e.1, pMVal e.2))))
+  else if tag == "M" then ((pMap body).bind manyOnly).map (fun m => some (.multi m))
+  else none
+
+def pMDOp (s : String) : Option (MD.Op Str Str) :=
+  match s.splitOn "," with
+  | ["setitem", k, v] => do pure (.setitem (← pAtom k) (← pAtom v))
+  | ["delitem", k] => do pure (.delitem (← pAtom k))
+  | ["add", k, v] => do pure (.add (← pAtom k) (← pAtom v))
+  | ["setlist", k, vs] => do pure (.setlist (← pAtom k) (← pAtoms vs))
+  | ["setdefault", k, v] => do pure (.setdefault (← pAtom k) (← pAtom v))
+  | ["setlistdefault", k, vs] => do pure (.setlistdefault (← pAtom k) (← pAtoms vs))
+  | ["update", tag, body] => do
+    match ← pMDArg tag body with
+    | some a => pure (.update a)
+    | none => none
+  | ["ior", tag, body] => do
+    match ← pMDArg tag body with
+    | some a => pure (.ior a)
+    | none => none
+  | ["pop", k, d] => do pure (.pop (← pAtom k) (← pOptAtom d))
+  | ["popitem"] => some .popitem
+  | ["poplist", k] => do pure (.poplist (← pAtom k))
+  | ["popitemlist"] => some .popitemlist
+  | ["clear"] => some .clear
+  | _ => none
+
+def oMDRet : MD.Ret Str Str → String
+  | .none => "~"
+  | .val v => oS v
+  | .vals vs => oStrs vs
+  | .item k v => oPair (k, v)
+  | .itemlist k vs => "(" ++ oS k ++ "," ++ oStrs vs ++ ")"
+
+def mdDump (probes : List Str) (c : MDS) : String :=
+  let perKey := probes.map fun k =>
+    "k" ++ oS k ++ "=" ++ oExcept oS (MD.getitem c k) ++ "/" ++ oOpt oInt (MD.getTyped pyInt c k) ++ "/" ++
+      oStrs (MD.getlist c k) ++ "/" ++ oList oInt (MD.getlistTyped pyInt c k) ++ "/" ++ oBool (PyDict.has c k)
+  "|".intercalate (["len=" ++ oNat c.length, "keys=" ++ oStrs (PyDict.keys c),
+    "values=" ++ oExcept oStrs (MD.values c), "items=" ++ oExcept oPairs (MD.itemsFirst c),
+    "itemsm=" ++ oPairs (MD.itemsMulti c), "lists=" ++ oKList (MD.lists c),
+    "listvalues=" ++ oList oStrs (MD.listvalues c), "todict=" ++ oExcept oPairs (MD.toDictFlat c),
+    "todictl=" ++ oKList (MD.lists c)] ++ perKey)
+
+/-- `d | other`: a new MultiDict, `other` must be a Mapping -/
+def mdOr (c : MDS) (tag body : String) : Option String := do
+  match ← pMDArg tag body with
+  | some (.mapping m) => pure (oKList (MD.addAll c (MD.iterMultiItems (.mapping m))))
+  | some (.multi m) => pure (oKList (MD.addAll c (MD.iterMultiItems (.multi m))))
+  | _ => pure (oExc "TypeError")
+
+def mdRun (immutable all : Bool) (probes : List Str) (c : MDS) (ops : List String) : Option (List String) :=
+  match ops with
+  | [] => some []
+  | o :: t =>
+    match o.splitOn "," with
+    | ["or", tag, body] => do
+      let r ← mdOr c tag body
+      let here := if all || t.isEmpty then r ++ "#" ++ mdDump probes c else r
+      let rest ← mdRun immutable all probes c t
+      pure (here :: rest)
+    | _ => do
+      let op ← pMDOp o
+      let r : MD.Res Str Str (MD.Ret Str Str) := if immutable then (c, .error "TypeError") else MD.step c op
+      let here := oExcept oMDRet r.2
+      let here := if all || t.isEmpty then here ++ "#" ++ mdDump probes r.1 else here
+      let rest ← mdRun immutable all probes r.1 t
+      pure (here :: rest)
+
+def handleMD (immutable : Bool) (all probes tag body : String) (ops : List String) : Option String := do
+  let probes ← pAtoms probes
+  let arg ← pMDArg tag body
+  let c := MD.construct arg
+  let outs ← mdRun immutable (all == "1") probes c ops
+  pure (";".intercalate (("#" ++ (if all == "1" || ops.isEmpty then mdDump probes c else "")) :: outs))
+
+/-! ### CombinedMultiDict -/
+
+def cmdDump (probes : List Str) (c : CMD.St Str Str) : String :=
+  let perKey := probes.map fun k =>
+    "k" ++ oS k ++ "=" ++ oExcept oS (CMD.getitem c k) ++ "/" ++ oExcept (oOpt oS) (CMD.get c k) ++ "/" ++
+      oExcept (oOpt oInt) (CMD.getTyped pyInt c k) ++ "/" ++
+      oStrs (CMD.getlist c k) ++ "/" ++ oList oInt (CMD.getlistTyped pyInt c k) ++ "/" ++ oBool (CMD.contains c k)
+  let items := CMD.itemsFirst c
+  "|".intercalate (["len=" ++ oNat (CMD.len c),
+    "keys=" ++ "[" ++ ",".intercalate (sortStrs ((CMD.keys c).map oS)) ++ "]",
+    "values=" ++ oExcept (fun l => oStrs (l.map (·.2))) items, "items=" ++ oExcept oPairs items,
+    "itemsm=" ++ oPairs (CMD.itemsMulti c), "lists=" ++ oKList (CMD.lists c),
+    "listvalues=" ++ oList oStrs ((CMD.lists c).map (·.2)),
+    "todict=" ++ oExcept oPairs items, "todictl=" ++ oKList (CMD.lists c)] ++ perKey)
+
+def setNth (l : List α) (i : Nat) (x : α) : List α := l.set i x
+
+def cmdRun (all : Bool) (probes : List Str) (c : CMD.St Str Str) (ops : List String) : Option (List String) :=
+  match ops with
+  | [] => some []
+  | o :: t =>
+    match o.splitOn "," with
+    | "c" :: _ => do
+      -- any mutator on the combined dict itself
+      let here := oExc "TypeError"
+      let here := if all || t.isEmpty then here ++ "#" ++ cmdDump probes c else here
+      let rest ← cmdRun all probes c t
+      pure (here :: rest)
+    | "d" :: i :: rest => do
+      let i ← i.toNat?
+      let d ← c[i]?
+      let op ← pMDOp (",".intercalate rest)
+      let r := MD.step d op
+      let c' := setNth c i r.1
+      let here := oExcept oMDRet r.2
+      let here := if all || t.isEmpty then here ++ "#" ++ cmdDump probes c' else here
+      let rest ← cmdRun all probes c' t
+      pure (here :: rest)
+    | _ => none
+
+/-- args: all, probes, n, then n pairs (tag, body), then ops -/
+def handleCMD (all probes : String) (n : Nat) (rest : List String) : Option String := do
+  let probes ← pAtoms probes
+  let rec inits : Nat → List String → Option (List MDS × List String)
+    | 0, r => some ([], r)
+    | k + 1, tag :: body :: r => do
+      let a ← pMDArg tag body
+      let (ds, r') ← inits k r
+      pure (MD.construct a :: ds, r')
+    | _, _ => none
+  let (c, ops) ← inits n rest
+  let outs ← cmdRun (all == "1") probes c ops
+  pure (";".intercalate (("#" ++ (if all == "1" || ops.isEmpty then cmdDump probes c else "")) :: outs))
+
+/-! ### HeaderSet -/
+
+def pHSOp (s : String) : Option HS.Op :=
+  match s.splitOn "," with
+  | ["add", h] => do pure (.add (← pAtom h))
+  | ["remove", h] => do pure (.remove (← pAtom h))
+  | ["discard", h] => do pure (.discard (← pAtom h))
+  | ["update", hs] => do pure (.update (← pAtoms hs))
+  | ["clear"] => some .clear
+  | ["delitem", i] => do pure (.delitem (← pInt i))
+  | ["setitem", i, v] => do pure (.setitem (← pInt i) (← pAtom v))
+  | _ => none
+
+def hsIdxProbes : List Int := [0, 1, -1]
+
+def hsDump (probes : List Str) (c : HS.St) : String :=
+  let perKey := probes.map fun k =>
+    "k" ++ oS k ++ "=" ++ oBool (HS.contains c k) ++ "/" ++ oInt (HS.find c k) ++ "/" ++ oExcept oInt (HS.index c k)
+  let perIdx := hsIdxProbes.map fun i => "i" ++ oInt i ++ "=" ++ oExcept oS (HS.getitem c i)
+  "|".intercalate (["len=" ++ oNat (HS.len c), "list=" ++ oStrs c.headers, "bool=" ++ oBool (!c.set.isEmpty),
+    "asset=" ++ "[" ++ ",".intercalate (sortStrs (c.set.map oS)) ++ "]",
+    "assetp=" ++ "[" ++ ",".intercalate (sortStrs (c.headers.eraseDups.map oS)) ++ "]",
+    "header=" ++ oS (HS.toHeader c)] ++ perKey ++ perIdx)
+
+def hsRun (all : Bool) (probes : List Str) (c : HS.St) (ops : List String) : Option (List String) :=
+  match ops with
+  | [] => some []
+  | o :: t => do
+    let op ← pHSOp o
+    let r := HS.step c op
+    let here := oExcept (fun _ => "~") r.res ++ "/" ++ oBool r.notified
+    let here := if all || t.isEmpty then here ++ "#" ++ hsDump probes r.st else here
+    let rest ← hsRun all probes r.st t
+    pure (here :: rest)
+
+def handleHS (all probes init : String) (ops : List String) : Option String := do
+  let probes ← pAtoms probes
+  let init ← pAtoms init
+  let c := HS.construct init
+  let outs ← hsRun (all == "1") probes c ops
+  pure (";".intercalate (("#" ++ (if all == "1" || ops.isEmpty then hsDump probes c else "")) :: outs))
+
+/-! ### EnvironHeaders -/
+
+def ehDump (probes : List Str) (env : EH.Env) : String :=
+  let l := EH.iter env
+  let perKey := probes.map fun k =>
+    "k" ++ oS k ++ "=" ++ oExcept oS (EH.getKey env k) ++ "/" ++ oStrs (EH.getlist env k) ++ "/" ++ oBool (EH.contains env k)
+  "|".intercalate (["len=" ++ oNat (EH.len env), "list=" ++ oPairs l, "keys=" ++ oStrs (keys l false),
+    "values=" ++ oStrs (values l), "str=" ++ oS (toText l)] ++ perKey)
+
+def ehRun (all : Bool) (probes : List Str) (env : EH.Env) (ops : List String) : Option (List String) :=
+  match ops with
+  | [] => some []
+  | o :: t => do
+    let (env', here) ← (match o.splitOn "," with
+      | ["envset", k, v] => do
+        let k ← pAtom k
+        let v ← pAtom v
+        pure (PyDict.set env k v, "~")
+      | ["envdel", k] => do
+        let k ← pAtom k
+        pure (PyDict.erase env k, "~")
+      | ["m", name] => pure (env, if name == "clear" then "~" else oExc "TypeError")
+      | _ => none : Option (EH.Env × String))
+    let here := if all || t.isEmpty then here ++ "#" ++ ehDump probes env' else here
+    let rest ← ehRun all probes env' t
+    pure (here :: rest)
+
+def handleEH (all probes init : String) (ops : List String) : Option String := do
+  let probes ← pAtoms probes
+  let init ← pPairs init
+  let env : EH.Env := init.foldl (fun e p => PyDict.set e p.1 p.2) []
+  let outs ← ehRun (all == "1") probes env ops
+  pure (";".intercalate (("#" ++ (if all == "1" || ops.isEmpty then ehDump probes env else "")) :: outs))
+
+def orBad (o : Option String) : Option String := some (o.getD badArgs)
+
 def handle : Handler
+  | "hdr", all :: probes :: tag :: body :: ops => orBad (handleHdr all probes tag body ops)
+  | "md", all :: probes :: tag :: body :: ops => orBad (handleMD false all probes tag body ops)
+  | "imd", all :: probes :: tag :: body :: ops => orBad (handleMD true all probes tag body ops)
+  | "cmd", all :: probes :: n :: rest => orBad (n.toNat?.bind fun n => handleCMD all probes n rest)
+  | "hs", all :: probes :: init :: ops => orBad (handleHS all probes init ops)
+  | "eh", all :: probes :: init :: ops => orBad (handleEH all probes init ops)
   | _, _ => none
 
 end Wz.Driver.C08
